@@ -241,19 +241,21 @@ struct static_array  // NOLINT(fuchsia-multiple-inheritance) : multiple inherita
 	// {
 	// }
 
-	static_array(static_array&& other) noexcept
+	static_array(static_array&& other) noexcept(false)  // it allocates, and moving the elements can throw
 	: array_alloc{other.alloc()}
 	, ref{
 	      array_alloc::allocate(static_cast<typename multi::allocator_traits<allocator_type>::size_type>(other.num_elements())),
 	      other.extensions()
 	} 
 	{
-		adl_alloc_uninitialized_move_n(
-			this->alloc(),
-			other.data_elements(),
-			other.num_elements(),
-			this->data_elements()
-		);
+		construct_or_release_([&] {
+			adl_alloc_uninitialized_move_n(
+				this->alloc(),
+				other.data_elements(),
+				other.num_elements(),
+				this->data_elements()
+			);
+		});
 	}
 
 	constexpr static_array(decay_type&& other, allocator_type const& alloc) noexcept(multi::allocator_traits<allocator_type>::is_always_equal::value)
@@ -732,7 +734,7 @@ struct static_array  // NOLINT(fuchsia-multiple-inheritance) : multiple inherita
 	#pragma clang diagnostic ignored "-Wunsafe-buffer-usage"  // TODO(correaa) use checked span
 	#endif
 
-	constexpr auto operator=(static_array&& other) noexcept -> static_array& {  // lints  (cppcoreguidelines-special-member-functions,hicpp-special-member-functions)
+	constexpr auto operator=(static_array&& other) noexcept(std::is_nothrow_move_assignable_v<T>) -> static_array& {  // NOLINT(hicpp-noexcept-move,performance-noexcept-move-constructor,cppcoreguidelines-noexcept-move-operations) the elements are move-assigned one by one
 		assert(extensions(other) == static_array::extensions());  // NOLINT(cppcoreguidelines-pro-bounds-array-to-pointer-decay,hicpp-no-array-decay) : allow a constexpr-friendly assert
 		adl_move(other.data_elements(), other.data_elements() + other.num_elements(), this->data_elements());  // there is no std::move_n algorithm
 		assert(this->stride() != 0);
@@ -760,10 +762,10 @@ struct static_array  // NOLINT(fuchsia-multiple-inheritance) : multiple inherita
 	}
 
  private:
-	void swap_(static_array& other) noexcept { operator()().swap(other()); assert(this->stride() != 0);}
+	void swap_(static_array& other) noexcept(std::is_nothrow_swappable_v<T>) { operator()().swap(other()); assert(this->stride() != 0);}  // the elements are swapped one by one
 
  public:
-	friend void swap(static_array& lhs, static_array& rhs) noexcept {
+	friend void swap(static_array& lhs, static_array& rhs) noexcept(std::is_nothrow_swappable_v<T>) {
 		lhs.swap_(rhs);
 	}
 };
@@ -1131,7 +1133,7 @@ struct static_array<T, ::boost::multi::dimensionality_type{0}, Alloc>  // NOLINT
 	#pragma clang diagnostic ignored "-Wunsafe-buffer-usage"
 	#endif
 
-	constexpr auto operator=(static_array&& other) noexcept -> static_array& {
+	constexpr auto operator=(static_array&& other) noexcept(std::is_nothrow_move_assignable_v<T>) -> static_array& {  // NOLINT(hicpp-noexcept-move,performance-noexcept-move-constructor,cppcoreguidelines-noexcept-move-operations) the element is move-assigned
 		assert(equal_extensions_if_(std::integral_constant<bool, (static_array::rank_v != 0)>{}, other));  // NOLINT(cppcoreguidelines-pro-bounds-array-to-pointer-decay,hicpp-no-array-decay) : allow a constexpr-friendly assert
 		adl_move(other.data_elements(), other.data_elements() + other.num_elements(), this->data_elements());  // there is no std::move_n algorithm
 		return *this;
